@@ -4,9 +4,24 @@
    consulted (known finding D11a): the theorems carry the hypothesis that excludes exactly
    that class of attributes, and the [_refuted] theorems show it is needed. *)
 From Coq Require Import ZArith List Bool.
-From BV Require Import Gen.C10Tables Model.AttServer Proofs.AttServer.
+From BV Require Import Gen.C10Tables Gen.C10Skeleton Model.AttServer Model.AttSkeleton Proofs.AttServer.
 Import ListNotations.
 Open Scope Z_scope.
+
+(* ..._matches_source: the permission checks (Attribute.read_value / write_value) and every
+   function that calls them read today exactly as in the frozen reading the model was written
+   from (see Props/C10.v); regenerated and re-checked on every run. *)
+Theorem C11_src_Attribute_read_value : src_matches k_Attribute_read_value = true.
+Proof. vm_compute. reflexivity. Qed.
+Print Assumptions C11_src_Attribute_read_value.
+
+Theorem C11_src_Attribute_write_value : src_matches k_Attribute_write_value = true.
+Proof. vm_compute. reflexivity. Qed.
+Print Assumptions C11_src_Attribute_write_value.
+
+Theorem C11_src_all_modelled_functions : forallb src_matches skeleton_keys = true.
+Proof. vm_compute. reflexivity. Qed.
+Print Assumptions C11_src_all_modelled_functions.
 
 (* read_gated (non-interference).  Two server states that differ at most in the values of
    attributes the bearer may not read ([attr_sim]: same handle, type, permissions, group end;
